@@ -105,13 +105,38 @@ INT_RANGE = {"u8": (0, 2**8 - 1), "u16": (0, 2**16 - 1), "u32": (0, 2**32 - 1), 
              "i64": (-2**63, 2**63 - 1), "i128": (-2**127, 2**127 - 1), "isize": (-2**63, 2**63 - 1)}
 
 
-def discharge_assert(an, body, t):
+def discharge_assert(an, body, t, blk=None):
     kind = t["kind"]
     cond = an.op(body, t["cond"])
     vals = const_eval(cond)
     want = 1 if t["expected"] else 0
     if vals is not None and all((not isinstance(v, tuple)) and v == want for v in vals):
         return True, "condition is constant: %s evaluates to %s on constant operands (%s)" % (kind, bool(want), canon(peel(cond))[:100])
+    if kind in ("DivisionByZero", "RemainderByZero") and blk is not None:
+        # guard dominance: `match d { 0 => .., n => x / n }` / `if d != 0 { x / d }`
+        c = peel(cond)
+        if c[0] == "binop" and c[1] == "Eq" and const_eval(c[3]) == {0}:
+            dv = canon(peel(c[2], widen=True))
+            for sb in sorted(body.live_blocks()):
+                st = body.term(sb)
+                if st["k"] != "switch" or sb == blk:
+                    continue
+                se = peel(an.op(body, st["op"]), widen=True)
+                if canon(se) == dv:
+                    zero = [tb for v, tb in st["targets"] if v == 0]
+                    if zero and st["otherwise"] != zero[0] and body.edge_dominates((sb, st["otherwise"]), blk):
+                        return True, "divisor %s is non-zero here: the division is only reachable through the non-zero edge of the match at %s" % (dv[:80], body.line(sb))
+                    nz = [tb for v, tb in st["targets"] if v != 0 and body.edge_dominates((sb, tb), blk)]
+                    if nz:
+                        return True, "divisor equals a non-zero case constant here (%s)" % body.line(sb)
+                ne, neg = strip_not(an.op(body, st["op"]))
+                if ne[0] == "binop" and ne[1] in ("Eq", "Ne", "Gt", "Lt") and canon(peel(ne[2], widen=True)) == dv and const_eval(ne[3]) == {0}:
+                    be = bool_edges(st, neg)
+                    if be:
+                        tt, ff = be
+                        good = ff if ne[1] == "Eq" else tt
+                        if ne[1] in ("Eq", "Ne", "Gt") and body.edge_dominates((sb, good), blk):
+                            return True, "divisor %s is non-zero here: guarded by the comparison at %s" % (dv[:80], body.line(sb))
     ops = [canon(peel(an.op(body, o)))[:120] for o in t["ops"]]
     return False, "%s not discharged: operand(s) %s are not compile-time constants in a safe range" % (kind, ops)
 
@@ -147,7 +172,7 @@ def run(ctx, env):
             if t["kind"] in ("NullPointerDereference", "MisalignedPointerDereference") and sp.get("exp") and re.match(r"^(vec|format|write|println|matches|assert)", sp.get("macro", "")):
                 ok, why = True, "pointer check emitted inside std macro `%s`" % sp.get("macro")
             else:
-                ok, why = discharge_assert(an, b, t)
+                ok, why = discharge_assert(an, b, t, blk)
             ctx.ob("R1.1", b.path, "assert:%s" % t["kind"], ok, why, site=b.line(blk))
     ctx.count("assert_terminators", n_as)
 
@@ -243,6 +268,28 @@ def run(ctx, env):
                 bad = find(e, lambda n: n[0] in ("binop", "unop", "cast") or (n[0] == "call" and n[2] is not None and n[2].npath != want and n[2].nsyn not in ("std::ops::Try::branch",) and not n[2].nsyn.startswith("std::result::Result::map")))
                 ctx.ob("R1.6", b.path, "ctor:%s" % rv["variant"], bool(srcs) and not bad,
                        "payload = %s" % canon(e)[:200], site=site(s["span"]))
+    # constructor used as a function value: nom `map(be_u24, DataNumber::U24)`
+    for b in prog.bodies.values():
+        if b.derived:
+            continue
+        for blk, t, c in b.calls():
+            if c is None:
+                continue
+            ctor = None
+            srcp = []
+            for a in t["args"]:
+                e = peel(an.op(b, a), identity=(), casts=False)
+                if e[0] == "constfn":
+                    m = re.match(r"^variable_versions::data_number::DataNumber::(U24|I24)$", e[1].path)
+                    if m:
+                        ctor = m.group(1)
+                    else:
+                        srcp.append(e[1].npath)
+            if ctor:
+                n24 += 1
+                want = "nom::number::complete::be_u24" if ctor == "U24" else "nom::number::complete::be_i24"
+                ok = c.npath == "nom::combinator::map" and srcp == [want]
+                ctx.ob("R1.6", b.path, "ctor:%s" % ctor, ok, "DataNumber::%s used as a function value in %s with source parser %s" % (ctor, c.npath, srcp), site=b.line(blk))
     ctx.floor("R1.6", "crate", "U24/I24 construction sites", n24, 2)
 
     # R1.7
